@@ -31,7 +31,7 @@ def run(ctx):
 
     R1 = 'C08-R1'
     ctx.rule(R1, 'remove_dir_all is called only by VersionManager::do_vacuum (on paths derived from find_vacuum) and by bootstrap')
-    rm = prog.calls_matching(re.compile(r'(tokio|std)::fs::(remove_dir_all|remove_dir|remove_file)$'))
+    rm = prog.calls_matching_all(re.compile(r'(tokio|std)::fs::(remove_dir_all|remove_dir|remove_file)$'))
     ctx.floor(R1, len(rm), 2, 'directory/file removal call sites')
     for c in rm:
         ok = c.body.root in (SEC + 'version_manager::VersionManager::do_vacuum', BOOT)
